@@ -383,7 +383,7 @@ func judgeProgram(c Cell, sigBase, tsrc string) (*vf.Failure, string) {
 		switch {
 		case strings.Contains(out, "ddptypes.Type is ddptypes.ListType, not *ddptypes.StructType"):
 			// one root cause for every cell: the code generator has no IR type for a list whose elements are lists
-			sigBase, cls = "C02:nested-list-type", "internal-error"
+			sigBase = "C02:nested-list-type"
 		case strings.Contains(out, "Unerwarteter Fehler"), strings.Contains(out, "CompilerError"):
 			cls = "internal-error"
 		case strings.Contains(out, "llvm ir"), strings.Contains(out, "LLVM"):
@@ -391,14 +391,14 @@ func judgeProgram(c Cell, sigBase, tsrc string) (*vf.Failure, string) {
 		case strings.Contains(out, "Fehler beim Linken"):
 			cls = "link-fails"
 		}
-		return vf.NewFailure(sigBase+":"+cls, fmt.Sprintf("%s in context %s, checker type %s: frontend accepts, but kddp kompiliere fails (%s):\n%s\n--- expression: %s", c.key(), c.Context, ti.src, cls, ddp.Trunc(out, 1200), c.Expr), c), "violation"
+		return vf.NewFailure(sigBase, fmt.Sprintf("%s in context %s, checker type %s: frontend accepts, but kddp kompiliere fails (%s):\n%s\n--- expression: %s", c.key(), c.Context, ti.src, cls, ddp.Trunc(out, 1200), c.Expr), c), "violation"
 	}
 	rr := ddp.Exec(dir, filepath.Join(dir, "p"), "")
 	if rr.TimedOut {
 		return nil, "inconclusive-run-timeout"
 	}
-	if rr.Signal != "" || (rr.Exit != 0 && !ddp.IsLaufzeitfehler(rr)) {
-		return vf.NewFailure(sigBase+":run-crash", fmt.Sprintf("%s in context %s: the executable ends with %s (not exit 0, not a Laufzeitfehler)\nstderr: %s\n--- expression: %s", c.key(), c.Context, rr.String(), ddp.Trunc(rr.Stderr, 600), c.Expr), c), "violation"
+	if rr.Signal != "" || ddp.IsSegfault(rr) || (rr.Exit != 0 && !ddp.IsLaufzeitfehler(rr)) {
+		return vf.NewFailure(sigBase, fmt.Sprintf("%s in context %s: the executable ends with %s (not exit 0, not a Laufzeitfehler)\nstderr: %s\n--- expression: %s", c.key(), c.Context, rr.String(), ddp.Trunc(rr.Stderr, 600), c.Expr), c), "violation"
 	}
 	if rr.Exit == 1 {
 		return nil, "ok-laufzeitfehler"
